@@ -15,6 +15,7 @@
 -/
 import Dlismodel.Proofs.Api
 import Dlismodel.Proofs.ApiSim
+import Dlismodel.Proofs.Dataset
 namespace Dlis.C20
 open Dlis
 
@@ -92,5 +93,18 @@ theorem rejected_call_on_foreign_set_is_visible :
 
 example : setRecords (run (World.init 1) [.origin 0 none [79] none .ok, .item 0 5 none [90] none .rejectLate]) 0 =
     setRecords (run (World.init 1) [.origin 0 none [79] none .ok]) 0 := by decide +kernel
+
+/-- "dataset names … of objects added later are as if the call had never been made": the data set names given to
+the accepted `add_channel` calls of any history are those the history gives without its rejected calls -/
+theorem dataset_names_unaffected (taken : List PStr) (calls : List (PStr × Option PStr × Bool)) :
+    ((datasetNames taken calls).zip calls).filterMap (fun p => if p.2.2.2 then some p.1 else none) =
+      datasetNames taken (calls.filter fun c => c.2.2) := datasetNames_rejected_invisible taken calls
+
+/-- and a name handed out is never one in use -/
+theorem dataset_name_fresh {taken : List PStr} {name : PStr} {e : Option PStr} {d : PStr}
+    (h : datasetName taken name e = .ok d) : d ∉ taken := datasetName_fresh h
+
+example : datasetNames [] [([65], none, true), ([65], none, false), ([65], none, true), ([66], some [65], true)] =
+    [.ok [65], .ok [65, 95, 95, 49], .ok [65, 95, 95, 49], .error .value] := by decide
 
 end Dlis.C20
